@@ -19,31 +19,32 @@ const modPath = "github.com/cockroachdb/pebble"
 
 // pkgAlias maps the short prefixes used in rule tables to import paths.
 var pkgAlias = map[string]string{
-	"p":        modPath,
-	"base":     modPath + "/internal/base",
-	"rec":      modPath + "/record",
-	"wal":      modPath + "/wal",
-	"man":      modPath + "/internal/manifest",
-	"afs":      modPath + "/vfs/atomicfs",
-	"vfs":      modPath + "/vfs",
-	"osp":      modPath + "/objstorage/objstorageprovider",
-	"objs":     modPath + "/objstorage",
-	"skl":      modPath + "/internal/arenaskl",
-	"cache":    modPath + "/internal/cache",
-	"cmp":      modPath + "/internal/compression",
-	"blk":      modPath + "/sstable/block",
-	"sst":      modPath + "/sstable",
-	"blob":     modPath + "/sstable/blob",
-	"compact":  modPath + "/internal/compact",
-	"brepr":    modPath + "/batchrepr",
-	"rangekey": modPath + "/internal/rangekey",
-	"rkstack":  modPath + "/internal/rangekeystack",
-	"keyspan":  modPath + "/internal/keyspan",
-	"tombspan": modPath + "/internal/tombspan",
-	"valsep":   modPath + "/valsep",
-	"remote":   modPath + "/objstorage/remote",
-	"overlap":  modPath + "/internal/overlap",
-	"manual":   modPath + "/internal/manual",
+	"p":                modPath,
+	"base":             modPath + "/internal/base",
+	"rec":              modPath + "/record",
+	"wal":              modPath + "/wal",
+	"man":              modPath + "/internal/manifest",
+	"afs":              modPath + "/vfs/atomicfs",
+	"vfs":              modPath + "/vfs",
+	"osp":              modPath + "/objstorage/objstorageprovider",
+	"osp/remoteobjcat": modPath + "/objstorage/objstorageprovider/remoteobjcat",
+	"objs":             modPath + "/objstorage",
+	"skl":              modPath + "/internal/arenaskl",
+	"cache":            modPath + "/internal/cache",
+	"cmp":              modPath + "/internal/compression",
+	"blk":              modPath + "/sstable/block",
+	"sst":              modPath + "/sstable",
+	"blob":             modPath + "/sstable/blob",
+	"compact":          modPath + "/internal/compact",
+	"brepr":            modPath + "/batchrepr",
+	"rangekey":         modPath + "/internal/rangekey",
+	"rkstack":          modPath + "/internal/rangekeystack",
+	"keyspan":          modPath + "/internal/keyspan",
+	"tombspan":         modPath + "/internal/tombspan",
+	"valsep":           modPath + "/valsep",
+	"remote":           modPath + "/objstorage/remote",
+	"overlap":          modPath + "/internal/overlap",
+	"manual":           modPath + "/internal/manual",
 }
 
 // Program is the resolved, type-checked and SSA-built view of /repo's working
@@ -64,6 +65,9 @@ type Program struct {
 
 func expandAlias(name string) string {
 	// "p.(*DB).foo" -> "github.com/cockroachdb/pebble.(*DB).foo"
+	if strings.HasPrefix(name, "github.com/") {
+		return name
+	}
 	i := strings.Index(name, ".")
 	if i < 0 {
 		return name
